@@ -303,3 +303,14 @@ Definition names_same (a b : names) : bool :=
   same_set (n_vars a) (n_vars b) && same_set (n_funcs a) (n_funcs b) && same_set (n_sufs a) (n_sufs b).
 Definition names_empty (a : names) : bool :=
   match n_vars a, n_funcs a, n_sufs a with [], [], [] => true | _, _, _ => false end.
+
+(* ---------- the names in a token stream, read off lexically ---------- *)
+(* every name token directly followed by '(' counts as a function, every other name token as a variable,
+   every numeral's suffix as a suffix; in order of occurrence *)
+Fixpoint scan_names (ts : list token) : names :=
+  match ts with
+  | [] => no_names
+  | TName n :: r => (match r with TLP :: _ => cb_fun n | _ => cb_var n end) +++ scan_names r
+  | TNum _ s :: r => cb_suffix s +++ scan_names r
+  | _ :: r => scan_names r
+  end.
